@@ -478,6 +478,14 @@ class Yields:
                 held.append(self.args[so].t)
             ctx.oblige("yield%d.release-of-a-held-slot@L%d" % (ordinal, lineno), st,
                        [z3.Or(*[h == value.t for h in held]) if held else z3.BoolVal(False)], "yield", lineno, ("C08",))
+            unit = getattr(self.con, "unit_param", None)
+            if unit and unit in self.args and "stats.num_item_discarded" in st.f:
+                # C08 (never more than work_capacity units inside): the worker gives its slot back only after its unit of
+                # work has left the node -- pushed, or dropped and counted
+                it = self.args[unit].t
+                ddis = st.f["stats.num_item_discarded"].t - self.old.f["stats.num_item_discarded"].t
+                ctx.oblige("slot-released-only-after-the-unit-has-left@L%d" % lineno, st,
+                           [put_count(st, it) + ddis == 1], "yield", lineno, ("C08",))
             if res is not None:
                 s.heap_set(VObj(res, "resource"), "res_users", Num(sel(st, "res_users", res) - 1))
             s.ghost["slots"] = [h for h in held if not h.eq(value.t)]
